@@ -1,6 +1,6 @@
 //! C30 — tick-scoped collections behave like finite batches (production code generation).
 use serde::{Deserialize, Serialize};
-use vcommon::{Args, Reporter, Rng, hash_of, json};
+use vcommon::{Args, Reporter, Rng, Tier, hash_of, json};
 
 use crate::drive::{KV, Trace};
 
@@ -539,14 +539,22 @@ pub fn run(args: &Args) {
     // (A) bounded-exhaustive: every history of T ticks over the 13 small batches; T = 3 for one-input
     // flows (2197 histories), T = 2 with all pairs for two-input flows (28 561 histories).
     let sb = small_batches();
+    // thorough tier: a fourth tick for the one-input flows (28 561 histories each)
+    let fourth: Vec<Option<&Vec<KV>>> =
+        if args.tier == Tier::Thorough { sb.iter().map(Some).collect() } else { vec![None] };
     for f in &fl {
         match f.run {
             Runner::One(_) => {
                 for a0 in &sb {
                     for a1 in &sb {
                         for a2 in &sb {
-                            let ticks = vec![(a0.clone(), vec![]), (a1.clone(), vec![]), (a2.clone(), vec![])];
-                            check_case(&mut rep, &fl, &mk(f, ticks), true);
+                            for a3 in &fourth {
+                                let mut ticks = vec![(a0.clone(), vec![]), (a1.clone(), vec![]), (a2.clone(), vec![])];
+                                if let Some(x) = a3 {
+                                    ticks.push(((*x).clone(), vec![]));
+                                }
+                                check_case(&mut rep, &fl, &mk(f, ticks), true);
+                            }
                         }
                     }
                 }
@@ -595,8 +603,8 @@ pub fn run(args: &Args) {
     rep.require(rep.counter("isolation_reruns") >= 10_000, "too few isolation re-runs");
     rep.finish(
         "Corpus of 40 Hydro tick programs compiled by generate_embedded (production DFIR codegen), each driven \
-         tick by tick with harness-chosen batches: (A) every 3-tick history over the 13 batches of length <= 2 \
-         from {(0,1),(0,2),(1,1)} for one-input flows, every 2-tick history over pairs of those batches for \
+         tick by tick with harness-chosen batches: (A) every 3-tick (thorough: also every 4-tick) history over the 13 batches \
+         of length <= 2 from {(0,1),(0,2),(1,1)} for one-input flows, every 2-tick history over pairs of those batches for \
          two-input flows; (B) random histories of 2-7 ticks, batches \
          of <= 5 items, 1-4 keys, 2-7 values, 20% empty ticks; 4 empty ticks appended. Per tick the observed \
          rows are compared with plain-Rust batch semantics (cross-tick reference for defer_tick / tick cycles / \
